@@ -438,6 +438,82 @@ pub fn search(alpha: &[(&'static str, Call)], depth: usize, srcs: &[SrcInfo], st
     (res, capped)
 }
 
+// ---------------------------------------------------------------------------------------------
+// second engine: the same transition function explored by stateright's breadth-first checker
+
+pub mod sr {
+    use super::*;
+    use stateright::{Checker, Model, Property};
+
+    pub struct WriterModel {
+        pub alpha: Vec<(&'static str, Call)>,
+        pub src_bytes: Vec<Vec<u8>>,
+        pub depth: usize,
+    }
+    /// A state is the history that reaches it; identity (hash, equality) is the canonical fingerprint only.
+    #[derive(Clone, Debug)]
+    pub struct S {
+        pub hist: Vec<u8>,
+        pub fp: u64,
+        /// the last step contradicted the reference model (panic, valid call refused, misuse absorbed)
+        pub bad: bool,
+    }
+    impl std::hash::Hash for S {
+        fn hash<H: std::hash::Hasher>(&self, h: &mut H) {
+            self.fp.hash(h)
+        }
+    }
+    impl PartialEq for S {
+        fn eq(&self, o: &S) -> bool {
+            self.fp == o.fp
+        }
+    }
+    impl Eq for S {}
+
+    impl Model for WriterModel {
+        type State = S;
+        type Action = u8;
+        fn init_states(&self) -> Vec<S> {
+            vec![S { hist: vec![], fp: execute(&[], &self.src_bytes).fp, bad: false }]
+        }
+        fn actions(&self, s: &S, out: &mut Vec<u8>) {
+            if s.hist.len() < self.depth {
+                out.extend(0..self.alpha.len() as u8);
+            }
+        }
+        fn next_state(&self, s: &S, a: u8) -> Option<S> {
+            let mut hist = s.hist.clone();
+            hist.push(a);
+            let calls: Vec<Call> = hist.iter().map(|&i| self.alpha[i as usize].1.clone()).collect();
+            let run = execute(&calls, &self.src_bytes);
+            // nothing follows drop or a writer that is gone: terminal transitions are judged by the primary engine
+            if matches!(self.alpha[a as usize].1, Call::Drop) || run.hook.is_none() {
+                return None;
+            }
+            let k = calls.len() - 1;
+            let bad = match (&run.res[k], run.classes[k]) {
+                (Res::Panic(_), _) => true,
+                (Res::Err(_), Class::MustOk) => true,
+                (Res::Ok(_), Class::MustErr) => true,
+                _ => false,
+            };
+            Some(S { hist, fp: run.fp, bad })
+        }
+        fn properties(&self) -> Vec<Property<Self>> {
+            vec![Property::<Self>::always("every step has the result class the reference model demands", |_, s| !s.bad)]
+        }
+    }
+
+    /// (unique states, total states generated, max depth, path of a discovery if any)
+    pub fn explore(alpha: Vec<(&'static str, Call)>, src_bytes: Vec<Vec<u8>>, depth: usize) -> (u64, u64, usize, Option<Vec<u8>>) {
+        let m = WriterModel { alpha, src_bytes, depth };
+        // one thread: breadth-first order, so every state is first met at its minimal depth (as in the primary engine)
+        let c = m.checker().threads(1).spawn_bfs().join();
+        let disc = c.discoveries().into_iter().next().map(|(_, p)| p.last_state().hist.clone());
+        (c.unique_state_count() as u64, c.state_count() as u64, c.max_depth(), disc)
+    }
+}
+
 fn replay(case: &Value, st: &mut Stats, seed: u64) {
     let srcs = sources(seed);
     let src_bytes: Vec<Vec<u8>> = srcs.iter().map(|s| s.bytes.clone()).collect();
@@ -476,7 +552,7 @@ pub fn run(args: &Args) -> i32 {
          {}-operation core alphabet, each transition executed on the real ZipWriter (state rebuilt by replaying the history) in lock step with the \
          reference model; states de-duplicated on fingerprint = (hook mode flags, inner kind, files.len, stats, sink bytes+position, model state). \
          Every step's result class is compared with the model (MustOk / MustErr / Unspecified); every successful finish() is verified through the crate \
-         reader and the independent parser; drop is compared with finish from every state; additionally every extra-data header ID 0..=65535 singly (explicit and implicit end). distinct_nontrivial = distinct fingerprints.",
+         reader and the independent parser; drop is compared with finish from every state; stateright 0.31's breadth-first checker explores the same transition function over the core alphabet as a second engine (state counts must agree); additionally every extra-data header ID 0..=65535 singly (explicit and implicit end). distinct_nontrivial = distinct fingerprints.",
         full.len(),
         core.len()
     );
@@ -533,6 +609,26 @@ pub fn run(args: &Args) -> i32 {
     ctx.distinct_counted = r1.states + r2.states;
     ctx.stats.sample(json!({"ops": ["start_extra", "write-valid-record", "end_local_start_central", "write-valid-record", "end_extra", "write-xyz", "finish"]}));
 
+    // second engine: stateright's BFS over the same transition function must find the same number of distinct states
+    {
+        let d = if thorough { 6 } else { 5 };
+        let src_bytes: Vec<Vec<u8>> = srcs.iter().map(|s| s.bytes.clone()).collect();
+        let t0 = std::time::Instant::now();
+        let (uniq, gen, maxd, disc) = sr::explore(core.clone(), src_bytes, d);
+        let ours: u64 = r2.per_level.iter().take(d + 1).sum();
+        ctx.bound("stateright_cross_check", json!({"alphabet": "core", "depth": d, "stateright_unique_states": uniq, "stateright_states_generated": gen, "stateright_max_depth": maxd, "primary_engine_states_to_that_depth": ours, "seconds": (t0.elapsed().as_secs_f64() * 10.0).round() / 10.0}));
+        crate::diag!("  [C12] stateright cross-check depth {d}: {uniq} unique states (primary engine {ours}), {gen} generated, at {:.1}s", ctx.elapsed());
+        if uniq != ours {
+            ctx.machinery(format!("engines disagree: stateright finds {uniq} distinct states to depth {d}, the primary search {ours}"));
+        }
+        if let Some(h) = disc {
+            // the primary engine judges the same step; a discovery it did not report would be an engine bug
+            let names: Vec<&str> = h.iter().map(|&i| core[i as usize].0).collect();
+            if ctx.stats.viols.is_empty() {
+                ctx.machinery(format!("stateright reports a step that contradicts the model after {names:?}, the primary engine does not"));
+            }
+        }
+    }
     // determinism: the same search twice with a different thread count must give the same totals
     if thorough {
         std::env::set_var("ZIPMC_THREADS", "5");
